@@ -39,6 +39,7 @@ CTAB = "structure/io/mol/ctab.py"
 SDF = "structure/io/mol/sdf.py"
 HEAD = "structure/io/mol/header.py"
 RDK = "interface/rdkit/mol.py"
+MOL = "structure/io/mol/mol.py"
 
 # residue-info: constructor keyword / setter  ->  getter
 RESINFO = {
@@ -102,6 +103,11 @@ def reader_slices(func, var="line"):
 
 
 def run(ctx):
+    # a refused structure must not leave a half-written file object behind (the connection table is built before anything is replaced)
+    from ..lints import raising_functions, validation_before_mutation
+    _raising = raising_functions(ctx, [CTAB, MOL, SDF, HEAD])
+    for rel_ in (MOL, SDF):
+        validation_before_mutation(ctx, rel_, "R2.refusal-leaves-file-intact", _raising)
     # converting to RDKit must leave the caller's structure as it was (kekulization works on a copy of the bond list)
     from ..lints import caller_arguments_untouched
     caller_arguments_untouched(ctx, RDK, "R3.caller-arguments-untouched", {}, 2)
@@ -592,6 +598,8 @@ def run(ctx):
 
 
 MUTANTS = [
+    Mutant("mol-set-structure-truncates-first", MOL, "        self.lines = self.lines[:N_HEADER] + write_structure_to_ctab(\n            atoms, default_bond_type, version\n        )\n",
+           "        del self.lines[N_HEADER:]\n        self.lines += write_structure_to_ctab(atoms, default_bond_type, version)\n", "R2.refusal-leaves-file-intact"),
     Mutant("coordination-as-double", RDK, "        if not use_dative_bonds and bond_type == BondType.COORDINATION:\n            bond_type = BondType.SINGLE\n",
            "        if not use_dative_bonds and bond_type == BondType.COORDINATION:\n            bond_type = BondType.DOUBLE\n", "R3.dative-substitution"),
     Mutant("key-name-two-characters", SDF, '            "name": re.compile(r"^<([a-zA-Z0-9][\\w.]*)>$"),\n', '            "name": re.compile(r"^<([a-zA-Z0-9][\\w.]+)>$"),\n',
